@@ -10,21 +10,21 @@ import (
 )
 
 type ReplayFile struct {
-	Property  string     `json:"property"`
-	Check     string     `json:"check"`
-	Signature string     `json:"signature"`
-	Oracle    string     `json:"oracle"`
-	Seed      int64      `json:"seed"`
-	Tier      string     `json:"tier"`
-	Choices   []uint32   `json:"choices"`
-	Scenario  *Scenario  `json:"scenario,omitempty"`
-	Violation *Violation `json:"violation,omitempty"`
-	Minimised bool       `json:"minimised"`
-	Trace     []string   `json:"abstract_trace,omitempty"`
-	Log       []string   `json:"event_log,omitempty"`
-	Runs      int        `json:"shrink_runs,omitempty"`
+	Property  string            `json:"property"`
+	Check     string            `json:"check"`
+	Signature string            `json:"signature"`
+	Oracle    string            `json:"oracle"`
+	Seed      int64             `json:"seed"`
+	Tier      string            `json:"tier"`
+	Choices   []uint32          `json:"choices"`
+	Scenario  *Scenario         `json:"scenario,omitempty"`
+	Violation *Violation        `json:"violation,omitempty"`
+	Minimised bool              `json:"minimised"`
+	Trace     []string          `json:"abstract_trace,omitempty"`
+	Log       []string          `json:"event_log,omitempty"`
+	Runs      int               `json:"shrink_runs,omitempty"`
 	Forced    map[string]string `json:"forced,omitempty"`
-	Enum      bool       `json:"enum,omitempty"`
+	Enum      bool              `json:"enum,omitempty"`
 }
 
 func hasSig(res *RunResult, prop, sig string) *Violation {
